@@ -26,6 +26,29 @@ type eqctx struct {
 	a2b, b2a map[uintptr]uintptr
 }
 
+// try compares without leaving traces of a failed attempt (visited pairs, pointer correspondences): used where a
+// candidate pairing is only being tried out, as for the keys of a map
+func (c *eqctx) try(a, b reflect.Value, path string) bool {
+	t := &eqctx{visited: map[[2]uintptr]bool{}, depth: c.depth, sharing: c.sharing}
+	for k, v := range c.visited {
+		t.visited[k] = v
+	}
+	if c.a2b != nil {
+		t.a2b, t.b2a = map[uintptr]uintptr{}, map[uintptr]uintptr{}
+		for k, v := range c.a2b {
+			t.a2b[k] = v
+		}
+		for k, v := range c.b2a {
+			t.b2a[k] = v
+		}
+	}
+	if t.eq(a, b, path) != "" {
+		return false
+	}
+	c.visited, c.a2b, c.b2a = t.visited, t.a2b, t.b2a
+	return true
+}
+
 func isNilLike(v reflect.Value) bool {
 	for {
 		if !v.IsValid() {
@@ -153,7 +176,7 @@ func (c *eqctx) eq(a, b reflect.Value, path string) string {
 			found := false
 			jt := b.MapRange()
 			for jt.Next() {
-				if c.eq(it.Key(), jt.Key(), path+".key") == "" {
+				if c.try(it.Key(), jt.Key(), path+".key") {
 					if r := c.eq(it.Value(), jt.Value(), fmt.Sprintf("%s[%v]", path, it.Key())); r != "" {
 						return r
 					}
